@@ -535,6 +535,13 @@ func cmdBaseline(args []string) {
 			if findKnown(known, id, r.Obl.Name) != nil {
 				continue
 			}
+			if r.Status == "unsat" && r.Seconds >= 2.5 && !r.Vacuous {
+				// measured under 16-way contention: time it again on its own before deciding
+				r2 := solveOne(outDir, run.bgOf[r.Obl], r.Obl, "quick", 4, 0)
+				if r2.Status == "unsat" {
+					r.Seconds = r2.Seconds
+				}
+			}
 			if r.Status == "unsat" && r.Seconds < 2.5 && !r.Vacuous {
 				n++
 				continue
